@@ -13,7 +13,7 @@ checks, na = [], []
 for p in props:
     pid = p["id"]
     c = cfg["checks"].get(pid)
-    if c is None or c.get("disabled"):
+    if c is None or c.get("disabled") or pid not in cfg.get("claimed", []):
         na.append({"property_id": pid, "reason": cfg.get("not_applicable", {}).get(pid, "no check registered yet (work in progress; see DESIGN.md section 4)")})
         continue
     checks.append({
